@@ -65,7 +65,11 @@ def _ints(xs):
 def _status_of(exc):
     import asimap.exceptions as X
 
-    if isinstance(exc, X.Bad):
+    import asimap.parse as XP
+
+    # parse.BadCommand (BadSyntax, ...) is what every caller of the parser
+    # answers with a tagged BAD
+    if isinstance(exc, (X.Bad, XP.BadCommand)):
         return "BAD"
     if isinstance(exc, X.No):
         return "NO"
